@@ -3,105 +3,6 @@ defining PROP = {...} (counts per tier, rule, assumptions, partial, optional mod
 trusted_base / timeout / shard)."""
 import os
 
-<<<<<<< HEAD
-PROPS = {
-    "C09": {
-        "counts": {"quick": 160, "thorough": 6000},
-        "rule": "one case = a WAL program (append/batch/rotate/reopen/read-from) run through pkg/wal and the "
-                "extracted WalCodec model; file bytes (length+CRC), replayed entries, statuses and sequence "
-                "numbers compared; non-trivial = at least 2 entries appended and (a fragmented entry or a "
-                "batch or more than one file); distinct by case text",
-        "trusted_base": [],
-        "assumptions": ["bufio/os deliver the bytes written; file names sort in creation order (UnixNano timestamps)"],
-        "partial": "",
-    },
-    "C01": {
-        "counts": {"quick": 240, "thorough": 12000},
-        "rule": "one case = a sequential program over the embedded API (put/delete/get/ApplyBatch/transaction "
-                "commit+rollback/flush/close+reopen/layer dump) with a small memtable so that data moves through "
-                "active table, immutable tables and SSTables; every Get, the reported last sequence and the "
-                "logical content of every layer are compared with the extracted Engine model; oracle = map replay "
-                "of the acknowledged writes; non-trivial = data in >= 2 kinds of layers and at least one "
-                "overwrite/delete of a key after a flush or reopen; distinct by case text",
-        "assumptions": ["background flush goroutine parked at a verifhook gate (layer placement decided by the "
-                        "program's explicit flushes); age-based memtable switching disabled (MaxMemTableAge=0)"],
-        "partial": "single client; concurrency is C06",
-    },
-    "C08": {
-        "counts": {"quick": 200, "thorough": 10000},
-        "rule": "same programs as C01 weighted to flush (WAL rotation) and reopen; the last sequence reported by "
-                "statistics after every write, after every reopen, and the next WAL sequence are compared with "
-                "the model; oracle = strictly greater after every acknowledged write, never smaller after reopen; "
-                "non-trivial as for C01",
-        "assumptions": ["as C01"],
-        "partial": "",
-    },
-    "C18": {
-        "counts": {"quick": 400, "thorough": 30000},
-        "rule": "sequential cases: insert/delete sequences with arbitrary (non-monotone, repeated, extreme) sequence "
-                "numbers on pkg/memtable.MemTable, with Get, full iteration, Seek, SetImmutable, compared with the "
-                "extracted Memtable model and with an independent sort-based oracle; every 10th case is concurrent: "
-                "one writer, three readers doing iteration/Get, each observation checked (sorted, nothing missing that "
-                "was inserted before it began, nothing invented); non-trivial = a key with several versions and >= 3 inserts",
-        "assumptions": ["Go atomics are sequentially consistent (skip list next pointers are atomic.Pointer)"],
-        "partial": "concurrent clause: proved on the store-by-store model (SkipConc.v, see Props/C18.v for what is "
-                   "complete); real interleavings are sampled",
-    },
-    "C10": {
-        "counts": {"quick": 32, "thorough": 1200},
-        "rule": "per case a log is written through pkg/wal; small logs: EVERY truncation offset and every byte position x "
-                "{xor 1, xor 0x80, :=0, :=0xff, +1} of the newest file is replayed by wal.ReplayWALFile and by the extracted "
-                "WalCodec model (entry count, status, digest compared); logs with a fragmented entry: sampled cuts and flips "
-                "incl. record headers; directory replays with the newest file cut (older files must stay); every 4th case "
-                "drives the engine: damage the newest log of a closed database, reopen (must succeed, state = some prefix "
-                "state, no backup of logs), write more, reopen again (post-recovery writes recovered). Oracle: entries "
-                "completely before the first damaged byte recovered in order, nothing returned that was not appended. "
-                "non-trivial = >= 2 entries and > 10 damaged replays",
-        "assumptions": ["CRC-32 detects the damage: the theorem's escape clause (checksum accepted altered bytes) is the only "
-                        "way a single altered byte can change an entry"],
-        "partial": "process/file-system level effects beyond cut and byte alteration of the newest file are not modelled",
-    },
-    "C02": {
-        "counts": {"quick": 48, "thorough": 2000},
-        "model_input": "both",
-        "rule": "per case a write program (put/delete/batch/commit/flush/reopen; sync mode none/batch/immediate; small "
-                "memtables) and 8 crash directives: a CHILD process runs the program with a verifhook site armed and dies "
-                "(os.Exit(137), no cleanup) at the n-th hit of the site (WAL append/sync, between log append and memtable "
-                "insert, inside a batch, each step of log rotation, SSTable write/rename/publish, close) or closes cleanly; "
-                "the parent records which writes were acknowledged/issued and how many bytes of every log file survived, "
-                "reopens, reads every key, writes three more operations, reopens again. Model: the extracted Engine/WalCodec "
-                "model cut at exactly the surviving lengths. Oracle: recovered state = state after m writes, acknowledged "
-                "<= m <= issued with synchronous logging (0 <= m otherwise), batches whole; after the extra writes and a clean "
-                "reopen = prefix(m) + those writes. non-trivial = at least one armed site was hit and >= 3 writes",
-        "assumptions": ["process stop, not power loss: bytes handed to the OS by write() survive; fsync ordering, lost renames "
-                        "and torn pages are outside the model (DESIGN.md section 8)"],
-        "partial": "crash points are the hook sites (between system calls), not arbitrary instructions; the theorems quantify "
-                   "over every cut of the newest log file",
-    },
-    "C05": {
-        "counts": {"quick": 200, "thorough": 8000},
-        "rule": "one case = a data set built by a C01-style program (put/delete/ApplyBatch/commit/rollback/flush/reopen, small "
-                "memtable so that versions and tombstones spread over active table, immutable tables and SSTables; every 20th "
-                "with a multi-block SSTable) followed by 8 iterator sections (engine full/range iterator, transaction "
-                "full/range iterator with buffered puts/deletes, optionally wrapped in prefix/suffix filters as service.Scan "
-                "does) each with a script of SeekToFirst/Seek/Next/SeekToLast and Scan-loop calls with limit; targets and bounds "
-                "from present keys, gaps, before-first, after-last, nil, empty and inverted ranges. Every position "
-                "(return value, Valid, Key, Value, IsTombstone) and every scan result is compared with the extracted Iter "
-                "model over the Engine model; oracle = sorted reference map of the acknowledged writes plus the "
-                "transaction's operations. Every 25th case is concurrent (writers on other keys, flushes, background "
-                "flusher on/off, while full/range/read-only-tx scans run): oracle only. non-trivial = data in >= 2 sources and "
-                "(a key with versions in >= 2 sources or a tombstone) and >= 2 live keys and >= 3 iterator operations; "
-                "concurrent: > 20 writes during the scans and >= 3 old live keys; distinct by case text",
-        "assumptions": ["as C01 (background flush parked, age-based switching off) for the sequential cases",
-                        "keys are non-empty (service limit 1..4096 bytes): a nil key would read as 'no previous key' in "
-                        "HierarchicalIterator.findNextUniqueKey",
-                        "an SSTable reads back what was written (C11): tables are modelled by their logical entries"],
-        "partial": "concurrent clause: proved for the model of memtable snapshot filter + append-only entry lists + immutable "
-                   "SSTables (iterators keep their own source list; each iterator call atomic with respect to writer steps); "
-                   "real interleavings are sampled.",
-    },
-}
-=======
 PROPS = {}
 _d = os.path.join(os.path.dirname(os.path.abspath(__file__)), "props.d")
 for _fn in sorted(os.listdir(_d)):
@@ -110,4 +11,3 @@ for _fn in sorted(os.listdir(_d)):
         with open(os.path.join(_d, _fn)) as _f:
             exec(compile(_f.read(), _fn, "exec"), _g)
         PROPS[_fn[:-3]] = _g["PROP"]
->>>>>>> main
